@@ -238,7 +238,8 @@ pub struct VarAsBuiltInFunctionCall {
 impl VarResolve for VarAsBuiltInFunctionCall {
     fn can_handle(&mut self, _ctx: &LinterContext, name: &Name) -> bool {
         self.built_in_function = BuiltInFunction::try_parse(name.as_bare_name());
-        self.built_in_function.is_some()
+        // CHR, STR and STRING without the $ are ordinary names, not built-in functions
+        self.built_in_function.is_some() && !matches!(try_built_in_function(name), Ok(None))
     }
 
     fn resolve(
